@@ -6,6 +6,7 @@ import edm
 import efreelist
 import elin
 import eevent
+import ecfg
 
 LEVEL = "E-LIN edge linearity over all bodies"
 
@@ -37,6 +38,7 @@ def run(ctx):
                 "adjusted thread-local delta is written back or published on every path.")
     n = efreelist.check_count_bookkeeping(ctx, F)
     efreelist.check_terminal_gc(ctx, F)
+    ecfg.check_slab_data_type(ctx, F)
     ctx.floor("E-FREELIST.count", "node-count bookkeeping obligations", n, 3)
     ctx.explain("E-EVENT.gc-order: Manager::gc sweeps every inner-node level before the terminal table (terminals "
                 "referenced only by dead inner nodes become unreferenced during the level sweep).")
